@@ -507,6 +507,8 @@ def main(argv):
         elif argv[i] == "--replay":
             replay = argv[i + 1]
             i += 2
+        elif what == "selftest" and i == 1:
+            i += 1  # optional property id
         else:
             print("unknown argument", argv[i])
             return 2
@@ -520,6 +522,40 @@ def main(argv):
         os.makedirs(BUILD, exist_ok=True)
         print("setup ok")
         return 0
+    if what == "selftest":
+        # sensitivity self-test: every confirmed seeded change under seeded/ (optionally of one
+        # property) is applied to a scratch worktree of /repo and the property's quick check must
+        # report a VIOLATION there; the worktree is removed again.
+        only = argv[1] if len(argv) > 1 and not argv[1].startswith("--") else None
+        import tempfile
+        missed = []
+        total = 0
+        for d in sorted(glob.glob(os.path.join(VERIF, "seeded", "*"))):
+            pid = os.path.basename(d).split("-")[0]
+            patch = os.path.join(d, "patch.diff")
+            if (only and pid != only) or not os.path.exists(patch) or pid not in props:
+                continue
+            total += 1
+            w = tempfile.mkdtemp(prefix="igris-selftest-", dir="/tmp")
+            os.rmdir(w)
+            subprocess.check_call(["git", "-C", "/repo", "worktree", "add", "--detach", "-q", w, "HEAD"])
+            try:
+                if sh(["git", "-C", w, "apply", patch]).returncode != 0:
+                    print("selftest %s: patch no longer applies (skipped)" % os.path.basename(d))
+                    total -= 1
+                    continue
+                rdir = tempfile.mkdtemp(prefix="vr-", dir="/tmp")
+                env = dict(os.environ, VERIF_REPO=w, VERIF_REPLAY_NEW=rdir)
+                r = sh([os.path.join(VERIF, "check"), pid, "--tier", tier, "--seed", str(seed)], env=env, cwd=VERIF)
+                shutil.rmtree(rdir, ignore_errors=True)
+                ok = r.returncode == 1 and "VIOLATION" in r.stdout
+                print("selftest %s: %s" % (os.path.basename(d), "caught" if ok else "NOT CAUGHT (exit %d)" % r.returncode))
+                if not ok:
+                    missed.append(os.path.basename(d))
+            finally:
+                subprocess.call(["git", "-C", "/repo", "worktree", "remove", "--force", w])
+        print("selftest: %d seeded changes, %d caught, %d missed %s" % (total, total - len(missed), len(missed), missed))
+        return 1 if missed else 0
     if what == "all":
         rc = 0
         for pid in sorted(props):
